@@ -4,6 +4,7 @@ import (
 	"encoding/json"
 	"fmt"
 	"sort"
+	"sync"
 	"time"
 
 	"verif/core"
@@ -106,17 +107,51 @@ func (t *traceSet) add(opIndex int, start interface{}, events []json.RawMessage,
 	return n
 }
 
-// validateTraces runs a trace acceptor over the concatenated runs. A rejected run becomes a
-// violation (with the run as replay) and is dropped so that the remaining runs are still checked.
+// validateTraces runs a trace acceptor over the concatenated runs, in chunks of at most ~50k events
+// validated by parallel TLC processes. A rejected run becomes a violation (with the run as replay)
+// and is dropped so that the remaining runs of its chunk are still checked.
 func validateTraces(r *core.Run, module, cfg, entry string, ops []core.Op, obs []core.Obs, lines [][]byte, owner []int) {
 	if len(lines) == 0 {
 		r.Machinery("no trace events recorded for %s (hooks missing?)", module)
 		return
 	}
+	const chunk = 50000
+	type part struct{ lo, hi int }
+	var parts []part
+	for lo := 0; lo < len(lines); {
+		hi := lo + chunk
+		if hi >= len(lines) {
+			hi = len(lines)
+		} else {
+			for hi < len(lines) && owner[hi] == owner[hi-1] { // do not split a run
+				hi++
+			}
+		}
+		parts = append(parts, part{lo, hi})
+		lo = hi
+	}
+	var mu sync.Mutex
+	var wg sync.WaitGroup
+	sem := make(chan struct{}, 6)
+	for _, p := range parts {
+		wg.Add(1)
+		sem <- struct{}{}
+		go func(p part) {
+			defer wg.Done()
+			defer func() { <-sem }()
+			validateChunk(r, &mu, module, cfg, entry, ops, obs, lines[p.lo:p.hi], owner[p.lo:p.hi])
+		}(p)
+	}
+	wg.Wait()
+}
+
+func validateChunk(r *core.Run, mu *sync.Mutex, module, cfg, entry string, ops []core.Op, obs []core.Obs, lines [][]byte, owner []int) {
 	for round := 0; round < 25 && len(lines) > 0; round++ {
 		tr, err := core.ValidateTrace(module, cfg, lines, false, 20*time.Minute)
+		mu.Lock()
 		if err != nil {
 			r.Machinery("trace validation %s: %v", module, err)
+			mu.Unlock()
 			tr.TLC.Cleanup()
 			return
 		}
@@ -124,6 +159,7 @@ func validateTraces(r *core.Run, module, cfg, entry string, ops []core.Op, obs [
 		tr.TLC.Cleanup()
 		if tr.Accepted {
 			r.Traces += countStarts(owner)
+			mu.Unlock()
 			return
 		}
 		idx := tr.Matched
@@ -157,6 +193,7 @@ func validateTraces(r *core.Run, module, cfg, entry string, ops []core.Op, obs [
 			hi++
 		}
 		r.Traces += countStarts(owner[:lo])
+		mu.Unlock()
 		lines, owner = lines[hi:], owner[hi:]
 	}
 }
